@@ -11,7 +11,7 @@ def predict(cases, v=None, workers=None, chunk=4000, spec="Lang"):
         path = os.path.join(vlib.WORK, f"progs_{os.getpid()}_{k}.ndjson")
         with open(path, "w") as f:
             for c in cases[k:k + chunk]:
-                f.write(json.dumps({"id": c["id"], "nodes": c["nodes"], "root": c["root"], "names": c.get("names", {"script": [115]})}) + "\n")
+                f.write(json.dumps({"id": c["id"], "nodes": c["nodes"], "root": c["root"], "names": c.get("names", {"script": [115]}), "mods": c.get("mods") or {"$none": 0}}) + "\n")
         r = vlib.tlc(spec, spec, env={"PROGS": path}, workers=workers or min(vlib.NCPU, 12), timeout=3300, heap="24g")
         os.remove(path)
         if r["distinct"] == 0 or r["timeout"] or any(e.startswith("Error:") for e in r["errors"]):
@@ -45,6 +45,8 @@ def observed_status(r):
         lines = [l for l in r.get("stderr", "").splitlines() if l.strip()]
         if not lines:
             return f"exit:{r.get('code', 1)}"
+        if lines[0].startswith("error:"):
+            return "import-compile-error" if r.get("code", 0) != 0 else "import-compile-error-but-status-0"
         if lines and lines[-1].startswith("Fatal error deadlock"):
             return "deadlock"
         if lines and ":" in lines[-1]:
